@@ -44,14 +44,18 @@ in-loop-rescale-exercised
 
 Input space and bound
 ---------------------
-quick   : 16 inputs  (6 haploid msprime simulations n=3..6 with 1..~8 trees, polytomy, two-root forest of
-          stars, historical samples, internal sample with children (parent-fixed/child-free branch),
-          internal sample + historical, 3 diploid inputs (2..3 individuals), diploid with one isolated
-          individual-less sample set, all-5-leaf exhaustive tree shapes sample of 4)
-          x max_shape {1.5, 5, 1000} x regularise {T,F} x singletons_phased {T,F where diploid} x 4 iterations
-          through tsdate.date;  gauge clause on every input x 2 gauges x max_shape {1.5, 1000}.
-thorough: 60+ inputs (same families, more seeds, all 26 four-leaf shapes incl. polytomies with mutations),
-          max_shape {1.5, 2, 5, 50, 1000}, 25 iterations.
+quick   : 22 inputs  (6 haploid msprime simulations n=3..6 with 1..~8 trees, a polytomy, a two-root forest of
+          stars, 2 inputs with historical samples and their variants with an internal sample (sample that is a
+          parent of free and of fixed nodes), 2 more internal-sample inputs, 3 diploid inputs, 1 diploid input in
+          which the two genomes of an individual are siblings (single-parent singleton block), 4 of the enumerated
+          5-leaf shapes (polytomies included) with random 0..3 mutations per edge)
+          x max_shape {1.5, 5, 1000} x regularise {T,F} x singletons_phased {T,F where diploid} = 156 real date()
+          calls x 4 iterations each checked;  gauge clause: every input x 2 gauges x max_shape {1.5, 1000}
+          (x phasing) = 104 twin fits.
+thorough: ~200 inputs (same families, more seeds, all 26 four-leaf shapes and 60 five-leaf shapes),
+          max_shape {1.5, 2, 5, 50, 1000}, 25 iterations: 2230 date() calls, 55750 checked iterations, 892 twin fits.
+Branch coverage (edges with fixed parent / free child, fixed / fixed, free parent over a historical sample,
+singleton blocks, single-parent blocks) is counted and reported in the notes.
 All inputs have <= ~40 nodes.  Not exhaustive.
 
 Tolerances
